@@ -1,7 +1,7 @@
 #!/bin/bash
 # confirm_seed.sh <Cxx>: re-verifies a sub-agent's seeded change in its scratch worktree /tmp/seed-Cxx (deliverables in /tmp/seed-Cxx-out)
 # and, if confirmed, files it under /verif/seeded/<Cxx>-<n>/
-ID=$1; WT=/tmp/seed-$ID; OUT=/tmp/seed-$ID-out
+ID=$1; PFX=${2:-seed}; WT=/tmp/$PFX-$ID; OUT=/tmp/$PFX-$ID-out
 export CARGO_NET_OFFLINE=true
 cd $WT || exit 2
 git -C $WT checkout -q -- . ; git -C $WT clean -fdq src
